@@ -140,11 +140,13 @@ func (r *replicator) GetQueue() []cid.Cid {
 	r.muProcess.Lock()
 	defer r.muProcess.Unlock()
 
-	fetching := make([]cid.Cid, r.queue.Len())
-	i := 0
-	for c := range r.tasks {
-		fetching[i] = c
-		i++
+	// tasks also holds every hash fetched so far: only those still queued or
+	// being fetched are unfinished
+	fetching := make([]cid.Cid, 0, len(r.tasks))
+	for c, state := range r.tasks {
+		if state != stateFetched {
+			fetching = append(fetching, c)
+		}
 	}
 
 	return fetching
